@@ -271,16 +271,80 @@ theorem walkOps_under (dst : Path) (hN : Normal dst) (w : List (Nat × Str)) (h 
     · simp at hp; rcases hp with rfl | rfl <;> exact hrel
     · split at hp
       · simp at hp; subst hp; exact hrel
-      · simp at hp; rcases hp with rfl | rfl <;> exact hrel
+      · split at hp
+        · simp at hp; rcases hp with rfl | rfl <;> exact hrel
+        · cases hp
 
-theorem copyTree_under (dst : Path) (hN : Normal dst) (t : Tree) (ht : TreeOk t) : Under dst (copyTree dst t) := by
+theorem copyTreeDeref_under (dst : Path) (hN : Normal dst) (t : Tree) (ht : TreeOk t) :
+    Under dst (copyTreeDeref dst t) := by
   intro p hp
-  simp only [copyTree, List.mem_cons, List.mem_append, List.mem_map] at hp
-  rcases hp with ((rfl | h) | h) | ⟨r, hr, rfl⟩
+  simp only [copyTreeDeref, List.mem_cons, List.mem_append] at hp
+  rcases hp with ((rfl | h) | h) | h
   · exact List.prefix_refl _
   · exact walkOps_under dst hN t.walk ht.1 p h
   · simp at h; rcases h with rfl | rfl <;> exact List.prefix_refl _
-  · exact under_sub dst hN r (ht.2 r hr)
+  · split at h
+    · cases h
+    · obtain ⟨r, hr, rfl⟩ := List.mem_map.1 h
+      exact under_sub dst hN r (ht.2 r hr)
+
+/-- the copy dereferences symbolic links (generated constant: `symlinks=` of the `shutil.copytree`
+    call): it is the link-free copy, whatever the `links` table of the tree says -/
+theorem copyTree_eq_deref (dst : Path) (t : Tree) : copyTree dst t = copyTreeDeref dst t := by
+  simp [copyTree, Generated.C19.copytreeSymlinks]
+
+theorem copyTree_under (dst : Path) (hN : Normal dst) (t : Tree) (ht : TreeOk t) : Under dst (copyTree dst t) := by
+  rw [copyTree_eq_deref]
+  exact copyTreeDeref_under dst hN t ht
+
+/-- what `walkOps` does with one entry -/
+theorem mem_walkOps (dst : Path) (w : List (Nat × Str)) (p : Prim) (hp : p ∈ walkOps dst w) :
+    ∃ e ∈ w, p.path = sub dst e.2 ∧
+      ((e.1 = 0 ∧ (p.kind = .wr ∨ p.kind = .chmod)) ∨ (e.1 = 1 ∧ p.kind = .mk) ∨
+       (e.1 = 2 ∧ (p.kind = .utime ∨ p.kind = .chmod))) := by
+  induction w with
+  | nil => cases hp
+  | cons e r ih =>
+    obtain ⟨k, rel⟩ := e
+    simp only [walkOps, List.mem_append] at hp
+    rcases hp with h | h
+    · refine ⟨(k, rel), by simp, ?_⟩
+      split at h
+      · rename_i hk
+        simp at h
+        rcases h with rfl | rfl <;> simp [hk]
+      · split at h
+        · rename_i hk
+          simp at h; subst h; simp [hk]
+        · split at h
+          · rename_i hk
+            simp at h
+            rcases h with rfl | rfl <;> simp [hk]
+          · cases h
+    · obtain ⟨e, he, h⟩ := ih h
+      exact ⟨e, by simp [he], h⟩
+
+theorem walkOps_file (dst : Path) (w : List (Nat × Str)) (rel : Str) (h : (0, rel) ∈ w) :
+    ⟨.wr, sub dst rel⟩ ∈ walkOps dst w := by
+  induction w with
+  | nil => cases h
+  | cons e r ih =>
+    rcases List.mem_cons.1 h with rfl | h'
+    · simp [walkOps]
+    · obtain ⟨k, rel'⟩ := e
+      simp only [walkOps, List.mem_append]
+      exact Or.inr (ih h')
+
+theorem walkOps_dir (dst : Path) (w : List (Nat × Str)) (rel : Str) (h : (1, rel) ∈ w) :
+    ⟨.mk, sub dst rel⟩ ∈ walkOps dst w := by
+  induction w with
+  | nil => cases h
+  | cons e r ih =>
+    rcases List.mem_cons.1 h with rfl | h'
+    · simp [walkOps]
+    · obtain ⟨k, rel'⟩ := e
+      simp only [walkOps, List.mem_append]
+      exact Or.inr (ih h')
 
 theorem copyFile_under (o dst : Path) (h : o <+: dst) : Under o (copyFile dst) := by
   intro p hp
@@ -335,6 +399,32 @@ end Ford.Fs
 namespace Ford.Fs
 open Ford
 
+theorem mem_parents_iff' (o d : Path) : o ∈ parents d ↔ ∃ n, n < d.length ∧ o = d.take n := by
+  simp [parents]
+  constructor
+  · rintro ⟨n, hn, rfl⟩; exact ⟨n, hn, rfl⟩
+  · rintro ⟨n, hn, rfl⟩; exact ⟨n, hn, rfl⟩
+
+/-- `o in d.parents` (pathlib) is strict containment, component by component -/
+theorem mem_parents_iff_proper (o d : Path) : o ∈ parents d ↔ o <+: d ∧ o ≠ d := by
+  rw [mem_parents_iff']
+  constructor
+  · rintro ⟨n, hn, rfl⟩
+    refine ⟨List.take_prefix n d, ?_⟩
+    intro h
+    have := congrArg List.length h
+    simp at this
+    omega
+  · rintro ⟨h, hne⟩
+    have hlen := h.length_le
+    have ht := List.prefix_iff_eq_take.1 h
+    refine ⟨o.length, ?_, ht⟩
+    rcases Nat.lt_or_ge o.length d.length with hl | hl
+    · exact hl
+    · exfalso
+      apply hne
+      rw [ht, List.take_of_length_le hl]
+
 theorem joinRaw_rel (base : Path) (s : Str) (h : s.head? ≠ some '/') : joinRaw base s = base ++ splitSlash s := by
   unfold joinRaw
   split
@@ -351,8 +441,8 @@ theorem pcopyOps_under (c : Cfg) (o : Path) (to : List Seg) (created : List Path
   · rename_i hg
     have ho : o <+: norm (joinRaw to pc.item) := by
       rcases hd with h | h
-      · simp [h, isProperPrefix] at hg
-        exact hg.1
+      · simp [h, guardAccepts] at hg
+        exact (mem_parents_iff_proper _ _).1 hg |>.1
       · exact h
     split
     · exact Under.nil
